@@ -3,6 +3,7 @@ package core
 import (
 	"errors"
 	"fmt"
+	"sort"
 	"strings"
 
 	jschema "github.com/jsightapi/jsight-schema-go-library"
@@ -172,12 +173,12 @@ func (*JApiCore) getPropertiesNames(pp map[string]*catalog.SchemaContentJSight) 
 		return ""
 	}
 
-	buf := strings.Builder{}
+	kk := make([]string, 0, len(pp))
 	for k := range pp {
-		buf.WriteString(k)
-		buf.WriteString(", ")
+		kk = append(kk, k)
 	}
-	return strings.TrimSuffix(buf.String(), ", ")
+	sort.Strings(kk) // map iteration order would make the message differ from run to run
+	return strings.Join(kk, ", ")
 }
 
 func (core *JApiCore) ProcessAllOf() *jerr.JApiError {
